@@ -508,6 +508,8 @@ SCRIPT_DIALECTS_QUICK = GEN_DIALECTS_QUICK
 # IMMEDIATE) whose _parse_hint_body catches ParseError itself -> a place where the levels could diverge / where a nested
 # IMMEDIATE parser could raise under IGNORE; make sure it is in the space
 EXTRA_STATEMENTS = [
+    "SELECT /*+ */ 1",
+    "SELECT /*+ ; */ 1 FROM t",
     "SELECT /*+ BROADCAST(t) */ a FROM t",
     "SELECT /*+ REPARTITION(3), COALESCE(2) */ a FROM t JOIN u ON t.id = u.id",
 ]
@@ -526,6 +528,9 @@ GEN_EXTRA = [
     # (Snowflake's IDENTIFIER('<name>') is re-parsed and rendered; string-typed JSON paths, formats)
     "SELECT ARRAY_CONSTRUCT(1, 2) AS a, x AT TIME ZONE 'UTC' AS ts FROM IDENTIFIER('db.t')",
     "SELECT APPROX_PERCENTILE(a, 0.5) AS p, IDENTIFIER('t.c') FROM t QUALIFY ROW_NUMBER() OVER (PARTITION BY a ORDER BY b NULLS LAST) = 1",
+    # diagnostics issued outside Generator.unsupported(): a logger call in a transform, a nested default-level generator
+    "WITH t(a) AS (SELECT * FROM x) SELECT a FROM t",
+    "SELECT IDENTIFIER('TRY(x)'), IDENTIFIER('a') FROM t",
 ]
 
 
